@@ -296,6 +296,8 @@ Definition handle_pdelay_timestamp (p : port) (d : inst_ds) (tid ts : Z) : hres 
   | _ => ret p d []
   end.
 
+(** multiple responders: the contested exchange is dropped ([PDEmpty], repaired F25)
+    when it is still being measured *)
 Definition go_faulty (p : port) (d : inst_ds) : hres :=
   let '(p1, o) := set_forced p PFaulty in ret p1 d o.
 
@@ -308,7 +310,7 @@ Definition handle_peer_delay_response (p : port) (d : inst_ds) (h : header)
   | PDMeasuring id responder req_send req_recv resp_send resp_recv =>
       if negb (id =? h_seq h) then ret p d [] else
       match responder with
-      | Some r => if negb (pi_eqb r (h_source h)) then go_faulty p d else
+      | Some r => if negb (pi_eqb r (h_source h)) then go_faulty (port_with_peer p PDEmpty) d else
           match resp_recv with
           | Some _ => ret p d []
           | None =>
@@ -350,7 +352,7 @@ Definition handle_peer_delay_follow_up (p : port) (d : inst_ds) (h : header)
               (port_with_peer p (PDMeasuring id (Some (h_source h)) req_send req_recv (Some rs) resp_recv)) d
         end in
       match responder with
-      | Some r => if negb (pi_eqb r (h_source h)) then go_faulty p d else proceed
+      | Some r => if negb (pi_eqb r (h_source h)) then go_faulty (port_with_peer p PDEmpty) d else proceed
       | None => proceed
       end
   | PDEmpty => ret p d []
